@@ -28,6 +28,10 @@ func (c *Ctx) TimeLeft() bool { return time.Since(c.start) < c.Budget }
 var checks = map[string]func(*Ctx){}
 
 func main() {
+	if len(os.Args) >= 2 && os.Args[1] == "pureworker" {
+		pureWorkerMain()
+		return
+	}
 	if len(os.Args) >= 3 && os.Args[1] == "wfrun" {
 		wfrunMain(os.Args[2])
 		return
